@@ -31,6 +31,8 @@ THEOREMS = ["RootSim.C06.invariant_inductive", "RootSim.C06.reach_good",
 VK = {1: "EXTRACT", 2: "FORWARD", 4: "ANTI_LOCAL", 6: "UNPROCESS", 7: "FOSSIL_FREE", 9: "FINI_ENTRY", 10: "MSG_ALLOC",
       11: "MSG_FREE", 17: "SEND_LOCAL", 20: "ANTI_DISCARD", 24: "DEQUEUE"}
 
+from props import runlib
+
 
 def vk_numbers():
     """numeric values of enum verif_kind, read from the working tree (the enum is add-only but may be renumbered)"""
@@ -264,3 +266,17 @@ def run(ctx):
                                  "remote messages: automaton proved, trace validation is the integrator's multi-rank run" % len(rows),
                          "input_distribution": tot,
                          "reachable_states": {"local": 70, "remote": 168}})
+    free_running = {"messages": tot["messages"], "cancelled": tot["cancelled"], "rolled_back": tot["rolled_back"]}
+    # ---- deterministic part: full runs under the token scheduler (yield points around every fetch_add on a flag word), re-executed on
+    # the model, which predicts the value seen by EVERY fetch_add (extract / anti / unprocess), every re-queue, every release and the
+    # leak count; the counts below are functions of the seed only (unlike the free-running traces above, which depend on OS timing)
+    agg = runlib.run_matrix(ctx, "flag word of every message at every fetch_add, queue membership, frees (scheduled full runs)",
+                            24, 600, oracle_keys=("s_double_free",), threads=(2, 3, 4), ckpts=(1, 2, 3, 7))
+    if agg:
+        ctx.coverage["evaluations"] = agg.tot.get("msgs", 0)
+        ctx.coverage["distinct_nontrivial"] = agg.tot.get("antis", 0)
+        ctx.coverage["rule"] = ("messages of scheduled full runs (deterministic in the seed) whose flag word was predicted at every fetch_add; "
+                                "non-trivial = anti-message operations (local cancellations); in addition the event sequence of every message "
+                                "of free-running 2-4 thread runs is checked to be a path of the proved automaton (counts under free_running_traces "
+                                "depend on OS timing)")
+        ctx.coverage["free_running_traces"] = free_running
